@@ -349,9 +349,11 @@ template< typename T, typename E>
       // TypedArgBase
       auto const  argh = entry.data();
 
-      // only arguments that were used: a destination variable that contained
-      // a value before the evaluation does not belong into the summary
-      if (argh->wasUsed() && argh->hasValue())
+      // exactly the arguments that were used: a destination variable that
+      // contained a value before the evaluation does not belong into the
+      // summary, an argument that was used does, also when hasValue() says that
+      // its destination is 'empty' afterwards (bits cleared with unsetFlag())
+      if (argh->wasUsed())
       {
          std::ostringstream  os_value;
 
